@@ -404,6 +404,9 @@ def _sim_module(case, mod, out: dict, paths: set, pkgs: set) -> dict:
         "explicit": explicit,
         "events": events,
         "tainted": tainted,
+        # stricter variant used by C04: also a local definition re-bound by a single later wildcard (aliases resolved
+        # before the expansion are re-pointed correctly, but their target_path is rewritten to the short-cut)
+        "tainted_strict": {n for n, i in ns.items() if i["how"] == "wild" and i["static"] in ("from", "import", "local")},
         "dot_imported": dot_imported,
         "same_module_rebound": same_module,
         # `__all__` helper names (`from m import __all__ as h`) that are bound more than once, or not directly
@@ -550,7 +553,7 @@ KNOWN_STEERING = ("stale-alias-after-wildcard-override", "dot-import-submodule-n
 @st.composite
 def packages(draw, max_mods: int = 6, max_stmts: int = 6, allow_join: bool = False, all_forms: bool = True,
              class_bodies: bool = True, avoid: frozenset = frozenset(), on_excluded=None, wild_plain_only: bool = False,
-             deco_defs: bool = False, weights: tuple = (4, 7, 9, 10, 11)):
+             deco_defs: bool = False, weights: tuple = (4, 7, 9, 10, 11), strict_taint: bool = False):
     """Package models of profile `importable`. `avoid`: slugs of known findings to steer away from (by construction);
     `on_excluded(slug)` is called each time a choice is restricted because of one."""
     tree = draw(trees(2, max_mods))
@@ -562,6 +565,7 @@ def packages(draw, max_mods: int = 6, max_stmts: int = 6, allow_join: bool = Fal
     case = {"mods": []}
     sim: dict = {}
     avoid_stale = "stale-alias-after-wildcard-override" in avoid
+    taint_key = "tainted_strict" if strict_taint else "tainted"
     avoid_helper = False
     avoid_dot = "dot-import-submodule-not-exposed" in avoid
     avoid_same = "wildcard-rebinding-same-module-skipped" in avoid
@@ -613,8 +617,8 @@ def packages(draw, max_mods: int = 6, max_stmts: int = 6, allow_join: bool = Fal
             # (documented precondition) nothing imported into a package may carry the name of one of its sub-modules,
             # except the sub-module itself imported directly (`from . import sub`, handled below)
             names = [n for n in mentionable(case, sim, src) if n not in own_children]
-            if avoid_stale and sim[src]["tainted"]:
-                kept = [n for n in names if n not in sim[src]["tainted"]]
+            if avoid_stale and sim[src][taint_key]:
+                kept = [n for n in names if n not in sim[src][taint_key]]
                 if len(kept) != len(names):
                     excluded("stale-alias-after-wildcard-override")
                 names = kept
@@ -639,7 +643,7 @@ def packages(draw, max_mods: int = 6, max_stmts: int = 6, allow_join: bool = Fal
                 ):
                     excluded("wildcard-rebinding-same-module-skipped")
                     continue
-                if avoid_stale and sim[src]["tainted"] & exported:
+                if avoid_stale and sim[src][taint_key] & exported:
                     excluded("stale-alias-after-wildcard-override")
                     continue
                 out.append(src)
